@@ -224,7 +224,8 @@ pub fn c17(u: &mut Unstructured) -> C17Case {
     let into_iter = bool_(u);
     let rev = bool_(u);
     let term = [Terminal::Count, Terminal::Last, Terminal::Collect, Terminal::Drain][below(u, 4)];
-    let ksel = |u: &mut Unstructured| match below(u, 15) {
+    let ksel = |u: &mut Unstructured| match below(u, 17) {
+        15 | 16 => KSel::Pow2Plus(below(u, 64) as u8, below(u, 12) as u8),
         12..=14 => KSel::Frac(u16_(u)),
         0..=4 => KSel::Small(below(u, 6) as u8),
         5 => KSel::RemMinus1,
